@@ -122,7 +122,8 @@ CHECKS = {
         technique="TLA+ spec Rates.tla (window guard + zero-initialised k[] + override) model-checked with TLC over all window shapes and "
                   "temperatures; files of six formats encoded with every window spelling, read and rendered by the real code; emitted "
                   "guards parsed strictly and judged by Trace_Rates.tla at boundary probe temperatures; the compiled generated Fex called at a "
-                  "sequence of temperatures in one process (run-time traces); APA_Rates.tla: the window semantics for every integer "
+                  "sequence of temperatures in one process (run-time traces); the batched GPU kernels read as text (each system evaluates "
+                  "its rates from its own parameter record, state slice and freshly cleared rate arrays: Batch event); APA_Rates.tla: the window semantics for every integer "
                   "temperature and cut point with Apalache",
         text="TLC checks OutsideIsZero / InsideIsLaw / NoWindowAlwaysActive / Partition (adjacent windows: exactly one active at every "
              "temperature incl. the cut points) on an integer axis; every emitted rate statement's guard must mean Tmin <= T < Tmax of the "
@@ -200,7 +201,9 @@ CHECKS = {
         text="TLC explores every fault sequence of the recovery ladder (5 levels, all flags, all partial progresses in ticks) and checks "
              "ExactSpan/NoOvershoot/FailOnBadFlag/InitialLogged + termination; the real generated naunet.cpp (cvode dense+sparse, odeint, "
              "python wrappers) is compiled against a scripted integrator stand-in and (i) driven along TLC's behaviours, (ii) driven by "
-             "random/targeted fault scripts whose logged API calls are validated step by step against the specification.",
+             "random/targeted fault scripts whose logged API calls are validated step by step against the specification; projects with "
+             "a temperature equation and budgets installed by Reset are included, and the drivers are built with -fsanitize=bounds (a "
+             "subscript outside a declared array size stops the run and is reported).",
         note="CVODE, Boost.Odeint and pybind11 are stand-ins implementing the documented call contracts only; flag classes as coded"),
 }
 
